@@ -533,7 +533,7 @@ func runConv(t interface{ Fatalf(string, ...any) }, c *ConvCase) {
 // of KiB: one group per row of a unique column), through the raw RPC and
 // through database/sql with both DSN kinds.
 func bigResponses(t *testing.T) {
-	for _, n := range []int{2500, 6000, 20000} {
+	for _, n := range []int{2500, 6000, 20000, 70001} {
 		spec := gen.DataSpec{Recipe: &gen.Recipe{N: n, Cols: []gen.ColSpec{
 			{Name: "u", Prefix: "row-", Kind: gen.KUnique}, {Name: "a", Kind: gen.KMod, K: 3, Prefix: "v"}}}}
 		taut := model.Not(model.Eq("a", "none"))
@@ -544,9 +544,39 @@ func bigResponses(t *testing.T) {
 	}
 }
 
+// manyQueries: thousands of distinct valid queries on ONE server process,
+// then the oldest ones again (whatever a server remembers per query is turned
+// over several times).
+func manyQueries(t *testing.T, n int, sargs []string) {
+	spec := gen.DataSpec{Recipe: &gen.Recipe{N: 700, Cols: []gen.ColSpec{
+		{Name: "u", Prefix: "r", Kind: gen.KUnique}, {Name: "g", Kind: gen.KMod, K: 3, Prefix: "p"}}}}
+	c := &Case{Data: spec, ServerArgs: sargs}
+	mk := func(i int) Q {
+		q := Q{ID: int32(i % 5), Expr: model.And(model.Eq("u", fmt.Sprintf("r%d", i%700)), model.Not(model.Eq("g", fmt.Sprintf("x%d", i))))}
+		if i%11 == 0 {
+			q.GroupBy = []string{"g"}
+		}
+		return q
+	}
+	var batch []Q
+	for i := 0; i < n; i++ {
+		batch = append(batch, mk(i))
+		if len(batch) == 50 {
+			c.Batches = append(c.Batches, batch)
+			batch = nil
+		}
+	}
+	for i := 0; i < 100; i++ {
+		batch = append(batch, mk(i))
+	}
+	c.Batches = append(c.Batches, batch)
+	run(t, c)
+}
+
 func TestQuick(t *testing.T) {
 	fix.Pinned(t, prop, replay)
 	bigResponses(t)
+	manyQueries(t, 2600, nil)
 	fix.Check(t, "convert", 3000, func(rt *rapid.T) { runConv(rt, drawConv(rt)) })
 	fix.Check(t, "batch", 150, func(rt *rapid.T) { run(rt, drawCase(rt, 25)) })
 }
@@ -555,6 +585,8 @@ func TestThorough(t *testing.T) {
 	if shard, _ := evid.Shard(); shard == 0 {
 		fix.Pinned(t, prop, replay)
 		bigResponses(t)
+		manyQueries(t, 2600, nil)
+		manyQueries(t, 9000, []string{"-p"})
 	}
 	fix.Check(t, "convert", 20000, func(rt *rapid.T) { runConv(rt, drawConv(rt)) })
 	fix.Check(t, "batch", 400, func(rt *rapid.T) { run(rt, drawCase(rt, 60)) })
